@@ -78,7 +78,7 @@ def run(ctx):
     rng = ctx.rng
     model_correspondence(ctx)
     unadf = ctx.bin("unadf")
-    ncase = 14 if ctx.tier == "quick" else 300
+    ncase = 40 if ctx.tier == "quick" else 600
     for ci in range(ncase):
         flav = rng.choice([0, 1, 3])
         names = rng.sample(HOSTILE, rng.randint(2, 5))
@@ -96,6 +96,8 @@ def run(ctx):
                 sub = {}
                 for m_ in rng.sample(HOSTILE, 2):
                     sub[m_[:30]] = [b"inner " + m_, 0, b""]
+                if rng.random() < 0.5:
+                    sub[b".."] = {b"..": {b"deep.txt": [b"deep", 0, b""]}, b"victim.txt": [b"OVERWRITTEN", 0, b""], b"sentinel.txt": [b"OVERWRITTEN", 0, b""]}
                 tree[n_] = sub
             else:
                 tree[n_] = [b"content of " + n_, 0, b""]
@@ -115,6 +117,9 @@ def run(ctx):
         cwd = os.path.join(top, "parent", "work", "out") if not mode.endswith("-d") else os.path.join(top, "parent", "work")
         outdir = os.path.join(top, "parent", "work", "out")
         args = [unadf]
+        # option combinations change which sanitising path runs: Windows name mangling (-w), directory cache listing (-c)
+        opts = rng.choice([[], [], ["-w"], ["-w"], ["-c"], ["-w", "-c"]])
+        args += opts
         if mode.endswith("-d"):
             args += ["-d", "out"]
         args.append(img)
@@ -130,8 +135,8 @@ def run(ctx):
             rc = 124
         after = snapshot(top, outdir)
         ctx.count((ci, mode, tuple(names)))
-        ctx.bump("mode:" + mode)
-        inp = {"mode": mode, "names": [hexs(n_) for n_ in names], "flavour": flav, "argv": args[1:]}
+        ctx.bump("mode:" + mode + ("+" + "".join(o[1] for o in opts) if opts else ""))
+        inp = {"mode": mode, "options": opts, "names": [hexs(n_) for n_ in names], "flavour": flav, "argv": args[1:]}
         if rc not in (0, 1):
             ctx.fail("crash", "unadf exit %d" % rc, inp, actual=r.stderr[-300:].decode("latin-1") if rc != 124 else "timeout")
         changed = [p for p in set(before) | set(after) if before.get(p) != after.get(p)]
@@ -151,11 +156,11 @@ def run(ctx):
         if len(ctx.failures) > 5:
             break
     rule = ("images with 2..7 entries named from a hostile list ('..', '../x', 'a/../../b', '/abs', backslash forms, dots, 0xFF) and random strings over './\\\\ax', some as "
-            "directories containing further hostile names; extraction of the whole tree and of single paths, with and without -d; the tree around the extraction directory "
+            "directories containing further hostile names (also nested '..' directories); extraction of the whole tree and of single paths, with and without -d, with and without -w / -c; the tree around the extraction directory "
             "(sentinel files, directory mtimes) compared before/after; distinct = (names, mode)")
     return common.finish(ctx, proof, rule, level="exploration",
                          assumptions=["no symbolic links pre-exist inside the extraction directory; the kernel resolves paths lexically otherwise",
-                                      "Windows name mangling (-w) is not exercised"])
+                                      "the Coq model of output_name covers the default mode; the -w (Windows mangling) route is exercised by the sandboxed runs only"])
 
 
 def replay(ctx, rep):
